@@ -5,7 +5,8 @@ EXTENDS Integers, Sequences, TLC, Json
 CONSTANT MaxLen
 Ops == <<"decl-literal", "decl-comp", "copy-b-from-a", "reassign-literal", "reassign-copy", "append-a", "append-b",
          "remove-present", "remove-maybe-absent", "index-first", "index-last-negative", "index-runtime", "len-a", "len-b",
-         "pass-to-function", "return-from-function", "string-concat", "string-len">>
+         "pass-to-function", "return-from-function", "string-concat", "string-len",
+         "append-own-first", "append-own-last", "swap-a-b", "swap-in-function", "index-into-other", "append-from-other">>
 Places == <<"setup", "loop", "shared">>
 VARIABLES h, place
 Init == h = <<>> /\ place \in 1..Len(Places)
